@@ -2,7 +2,7 @@
    selector (index, shift, mask, multi-word select, maskHigh, shiftHigh) applied to the
    four 64-bit limbs of a scalar returns exactly bits [c*chunk, c*chunk + c) of the value. *)
 From Coq Require Import ZArith Lia Bool ZifyBool.
-From GoIpa Require Import Model.Pippenger.
+From GoIpa Require Import Model.Pippenger Proofs.PippengerProofs.
 Open Scope Z_scope.
 
 Lemma pow2_pos' n : 0 <= n -> 0 < 2 ^ n.
@@ -181,4 +181,391 @@ Proof.
     split; [|lia].
     rewrite land_ones' by lia. rewrite Z.add_mod by lia. rewrite Z.mod_same by lia.
     rewrite Z.add_0_r, Z.mod_mod by lia. rewrite Z.mod_small by lia. unfold e. lia.
+Qed.
+
+(* ---- writing one packed digit into the output limbs ---- *)
+Lemma lor_shift_add a b n : 0 <= n -> 0 <= a < 2 ^ n -> 0 <= b -> Z.lor a (Z.shiftl b n) = a + b * 2 ^ n.
+Proof.
+  intros Hn Ha Hb.
+  assert (Hland : Z.land a (Z.shiftl b n) = 0).
+  { apply Z.bits_inj'. intros m Hm. rewrite Z.land_spec, Z.bits_0.
+    destruct (Z.lt_ge_cases m n) as [Hlt|Hge].
+    - rewrite Z.shiftl_spec_low by lia. apply andb_false_r.
+    - replace (Z.testbit a m) with false; [reflexivity|]. symmetry. apply Z.testbit_false; [lia|].
+      assert (2 ^ n <= 2 ^ m) by (apply Z.pow_le_mono_r; lia). rewrite Z.div_small by lia. reflexivity. }
+  rewrite <- Z.lxor_lor by exact Hland. rewrite <- Z.add_nocarry_lxor by exact Hland.
+  rewrite Z.shiftl_mul_pow2 by lia. reflexivity.
+Qed.
+
+Definition write_field (c chunk out bits : Z) : Z :=
+  let sel := mk_selector c chunk in
+  let out1 := or_limb out (s_index sel) (u64 (Z.shiftl bits (s_shift sel))) in
+  if s_multi sel then or_limb out1 (s_index sel + 1) (Z.shiftr bits (s_shiftHigh sel)) else out1.
+
+Theorem write_field_spec c chunk out bits :
+  1 <= c <= 64 -> 0 <= chunk -> chunk * c < 256 ->
+  0 <= out < 2 ^ (chunk * c) -> 0 <= bits < 2 ^ c -> bits * 2 ^ (chunk * c) < 2 ^ 256 ->
+  write_field c chunk out bits = out + bits * 2 ^ (chunk * c).
+Proof.
+  intros Hc Hch Hin Hout Hbits Hfit. unfold write_field, mk_selector.
+  set (jc := chunk * c) in *. set (index := jc / 64). set (shift := jc - index * 64).
+  assert (Hjc : 0 <= jc) by (unfold jc; apply Z.mul_nonneg_nonneg; lia).
+  assert (Hidx : 0 <= index <= 3) by (unfold index; split; [apply Z.div_pos; lia|assert (jc / 64 < 4) by (apply Z.div_lt_upper_bound; lia); lia]).
+  assert (Hsh : 0 <= shift < 64).
+  { unfold shift, index. pose proof (Z.mod_pos_bound jc 64 ltac:(lia)). rewrite Z.mod_eq in H by lia. lia. }
+  assert (Ejc : jc = 64 * index + shift) by (unfold shift; lia).
+  pose proof (pow2_pos' shift ltac:(lia)) as Hps. pose proof (pow2_pos' (64 * index) ltac:(lia)) as Hpi.
+  assert (E2 : 2 ^ jc = 2 ^ (64 * index) * 2 ^ shift) by (rewrite Ejc, Z.pow_add_r by lia; reflexivity).
+  (* the low word: v = (bits 2^shift) mod 2^64 = 2^shift (bits mod 2^(64-shift)) *)
+  set (v := u64 (Z.shiftl bits shift)).
+  assert (Ev : v = (bits mod 2 ^ (64 - shift)) * 2 ^ shift).
+  { unfold v, u64. rewrite Z.shiftl_mul_pow2 by lia.
+    replace 64 with ((64 - shift) + shift) at 1 by lia. rewrite Z.pow_add_r by lia.
+    rewrite Z.mul_mod_distr_r by (try lia; pose proof (pow2_pos' (64 - shift) ltac:(lia)); lia). reflexivity. }
+  assert (Hlow : 0 <= bits mod 2 ^ (64 - shift) < 2 ^ (64 - shift)) by (apply Z.mod_pos_bound, pow2_pos'; lia).
+  (* first write *)
+  assert (W1 : or_limb out index v = out + (bits mod 2 ^ (64 - shift)) * 2 ^ jc).
+  { unfold or_limb. rewrite Z.shiftl_mul_pow2 by lia. rewrite Ev.
+    replace ((bits mod 2 ^ (64 - shift)) * 2 ^ shift * 2 ^ (64 * index))
+      with (Z.shiftl (bits mod 2 ^ (64 - shift)) jc) by (rewrite Z.shiftl_mul_pow2 by lia; rewrite E2; ring).
+    rewrite lor_shift_add by lia. reflexivity. }
+  destruct (negb (64 mod c =? 0) && (64 - c <? shift) && (index <? 3)) eqn:Emulti;
+    cbn [s_index s_shift s_multi s_shiftHigh]; fold v; rewrite W1.
+  - (* multi: the high part goes to the next limb *)
+    apply andb_prop in Emulti as [Em Ei]. apply andb_prop in Em as [_ Ecross]. apply Z.ltb_lt in Ecross, Ei.
+    replace (c - (shift - (64 - c))) with (64 - shift) by lia.
+    unfold or_limb. rewrite Z.shiftr_div_pow2 by lia.
+    set (lo := bits mod 2 ^ (64 - shift)) in *. set (hi := bits / 2 ^ (64 - shift)).
+    assert (Hhi : 0 <= hi) by (apply Z.div_pos; [lia|apply pow2_pos'; lia]).
+    assert (Hb : bits = hi * 2 ^ (64 - shift) + lo).
+    { unfold hi, lo. pose proof (Z.div_mod bits (2 ^ (64 - shift)) ltac:(pose proof (pow2_pos' (64 - shift) ltac:(lia)); lia)). lia. }
+    assert (Hn : 64 * (index + 1) = jc + (64 - shift)) by lia.
+    rewrite lor_shift_add.
+    + rewrite Hn, Z.pow_add_r by lia. rewrite Hb at 1. ring.
+    + lia.
+    + split; [pose proof (pow2_pos' jc Hjc); nia|].
+      rewrite Hn, Z.pow_add_r by lia.
+      assert (lo * 2 ^ jc <= (2 ^ (64 - shift) - 1) * 2 ^ jc) by (apply Z.mul_le_mono_nonneg_r; [pose proof (pow2_pos' jc Hjc)|]; lia).
+      pose proof (pow2_pos' jc Hjc). nia.
+    + exact Hhi.
+  - (* single write: nothing is truncated *)
+    assert (Hnt : bits mod 2 ^ (64 - shift) = bits).
+    { apply Z.mod_small. split; [lia|].
+      destruct (Z.le_gt_cases (shift + c) 64) as [Hfit64|Hcross].
+      - assert (2 ^ c <= 2 ^ (64 - shift)) by (apply Z.pow_le_mono_r; lia). lia.
+      - (* crossing without multi: top limb, and the field fits below 2^256 *)
+        assert (Hi3 : index = 3).
+        { destruct (Z.eqb_spec (64 mod c) 0) as [Hm|Hm].
+          - exfalso. apply Z.mod_divide in Hm; [|lia]. destruct Hm as [q Hq].
+            assert (Hq0 : 0 < q) by nia.
+            assert (Esh : shift = (chunk - index * q) * c) by (unfold shift, jc; nia).
+            assert (chunk - index * q < q) by nia. nia.
+          - cbn [negb andb] in Emulti. destruct (64 - c <? shift) eqn:E1; [|lia]. cbn [andb] in Emulti. lia. }
+        (* bits 2^jc < 2^256 with jc = 192 + shift *)
+        rewrite E2, Hi3 in Hfit. change (2 ^ (64 * 3)) with (2 ^ 192) in Hfit.
+        assert (bits * 2 ^ shift < 2 ^ 64).
+        { assert (2 ^ 256 = 2 ^ 192 * 2 ^ 64) by reflexivity. nia. }
+        assert (2 ^ 64 = 2 ^ shift * 2 ^ (64 - shift)) by (rewrite <- Z.pow_add_r by lia; f_equal; lia).
+        nia. }
+    rewrite Hnt. reflexivity.
+Qed.
+
+(* ---- the whole per-scalar loop: packed output = sum of the encoded signed digits of
+        the arithmetic recoding, final carry = recoding's carry ---- *)
+Fixpoint packsum (c chunk : Z) (ds : list Z) : Z :=
+  match ds with
+  | nil => 0
+  | cons d r => encode_digit c d * 2 ^ (chunk * c) + packsum c (chunk + 1) r
+  end.
+Fixpoint fits256 (c chunk : Z) (ds : list Z) : Prop :=
+  match ds with
+  | nil => True
+  | cons d r => encode_digit c d * 2 ^ (chunk * c) < 2 ^ 256 /\ fits256 c (chunk + 1) r
+  end.
+
+Lemma part_loop_S f c s chunk carry out :
+  part_loop (S f) c s chunk carry out =
+  (let digit0 := carry + sel_bits s (mk_selector c chunk) in
+   if digit0 =? 0 then part_loop f c s (chunk + 1) 0 out else
+   let over := 2 ^ (c - 1) <=? digit0 in
+   let digit := if over then digit0 - 2 ^ c else digit0 in
+   let bits := if 0 <=? digit then digit else Z.lor (- digit - 1) (2 ^ (c - 1)) in
+   part_loop f c s (chunk + 1) (if over then 1 else 0) (write_field c chunk out bits)).
+Proof. reflexivity. Qed.
+
+Theorem part_loop_spec : forall (f : nat) c s chunk carry out,
+  2 <= c <= 64 -> 0 <= s < 2 ^ 256 -> 0 <= carry <= 1 -> 0 <= chunk ->
+  ((1 <= f)%nat -> (chunk + Z.of_nat f - 1) * c < 256) ->
+  0 <= out < 2 ^ (chunk * c) ->
+  fits256 c chunk (fst (recode f c (s / 2 ^ (c * chunk)) carry)) ->
+  part_loop f c s chunk carry out
+  = (out + packsum c chunk (fst (recode f c (s / 2 ^ (c * chunk)) carry)),
+     snd (recode f c (s / 2 ^ (c * chunk)) carry)).
+Proof.
+  induction f as [|f IH]; intros c s chunk carry out Hc Hs Hcar Hch Hwin Hout Hfit.
+  - cbn [part_loop recode fst snd packsum]. f_equal. lia.
+  - assert (Hstart : chunk * c < 256).
+    { specialize (Hwin ltac:(lia)). rewrite Nat2Z.inj_succ in Hwin. nia. }
+    pose proof (pow2_pos' (c - 1) ltac:(lia)) as Hh.
+    assert (E2 : 2 ^ c = 2 * 2 ^ (c - 1)) by (replace c with (Z.succ (c - 1)) at 1 by lia; rewrite Z.pow_succ_r by lia; reflexivity).
+    rewrite part_loop_S. cbv zeta.
+    rewrite (window_extraction c chunk s) by lia.
+    replace (chunk * c) with (c * chunk) by lia.
+    set (s' := s / 2 ^ (c * chunk)) in *.
+    assert (Hw : 0 <= s' mod 2 ^ c < 2 ^ c) by (apply Z.mod_pos_bound; lia).
+    rewrite recode_S in Hfit |- *. cbv zeta in Hfit |- *. cbn [fst snd packsum fits256] in Hfit |- *.
+    destruct Hfit as [Hfit1 Hfit'].
+    assert (Enext : s' / 2 ^ c = s / 2 ^ (c * (chunk + 1))).
+    { unfold s'. rewrite Z.div_div by (try apply pow2_pos'; try lia; apply Z.mul_nonneg_nonneg; lia).
+      rewrite <- Z.pow_add_r by (try lia; apply Z.mul_nonneg_nonneg; lia). f_equal. f_equal. lia. }
+    assert (Hwin' : (1 <= f)%nat -> (chunk + 1 + Z.of_nat f - 1) * c < 256).
+    { intros Hf. specialize (Hwin ltac:(lia)). rewrite Nat2Z.inj_succ in Hwin. replace (chunk + 1 + Z.of_nat f - 1) with (chunk + Z.succ (Z.of_nat f) - 1) by lia. exact Hwin. }
+    set (w := carry + s' mod 2 ^ c) in *.
+    assert (Hpow : 2 ^ ((chunk + 1) * c) = 2 ^ (chunk * c) * 2 ^ c).
+    { replace ((chunk + 1) * c) with (chunk * c + c) by lia. apply Z.pow_add_r; [apply Z.mul_nonneg_nonneg|]; lia. }
+    pose proof (pow2_pos' (chunk * c) ltac:(apply Z.mul_nonneg_nonneg; lia)) as Hpc.
+    destruct (Z.eqb_spec w 0) as [Hw0|Hw0].
+    + (* window and carry zero: nothing written *)
+      replace (2 ^ (c - 1) <=? w) with false by (symmetry; apply Z.leb_gt; lia).
+      rewrite Hw0. cbn [encode_digit Z.eqb]. rewrite Z.mul_0_l, Z.add_0_l.
+      rewrite Hw0 in Hfit'. replace (2 ^ (c - 1) <=? 0) with false in Hfit' by (symmetry; apply Z.leb_gt; lia).
+      rewrite Enext in Hfit' |- *.
+      apply IH; try assumption; try lia. split; [lia|]. rewrite Hpow.
+      assert (2 ^ (chunk * c) * 1 <= 2 ^ (chunk * c) * 2 ^ c) by (apply Z.mul_le_mono_nonneg_l; lia). lia.
+    + set (over := 2 ^ (c - 1) <=? w) in *. set (d := if over then w - 2 ^ c else w) in *.
+      assert (Hd : - 2 ^ (c - 1) <= d <= 2 ^ (c - 1) - 1).
+      { unfold d, over. destruct (Z.leb_spec (2 ^ (c - 1)) w); unfold w in *; lia. }
+      assert (Ebits : (if 0 <=? d then d else Z.lor (- d - 1) (2 ^ (c - 1))) = encode_digit c d).
+      { unfold encode_digit. destruct (Z.eqb_spec d 0) as [->|]; [reflexivity|reflexivity]. }
+      rewrite Ebits. destruct (signed_digit_roundtrip c d ltac:(lia) Hd) as [_ Henc].
+      replace (chunk * c) with (c * chunk) in * by lia.
+      replace (c * chunk) with (chunk * c) in * by lia.
+      rewrite (write_field_spec c chunk out (encode_digit c d)) by (try assumption; lia).
+      rewrite Enext in Hfit' |- *.
+      rewrite (IH c s (chunk + 1) (if over then 1 else 0) (out + encode_digit c d * 2 ^ (chunk * c)));
+        try assumption; try lia.
+      * f_equal. lia.
+      * set (P := 2 ^ (chunk * c)) in *. set (e := encode_digit c d) in *.
+        assert (He1 : 0 <= e * P) by (apply Z.mul_nonneg_nonneg; lia).
+        assert (He2 : e * P <= (2 ^ c - 1) * P) by (apply Z.mul_le_mono_nonneg_r; lia).
+        assert (He3 : (2 ^ c - 1) * P = P * 2 ^ c - P) by ring.
+        split; [lia|]. rewrite Hpow. lia.
+Qed.
+
+(* ---- reading the packed digits back ---- *)
+Fixpoint encval (c : Z) (ds : list Z) : Z :=
+  match ds with nil => 0 | cons d r => encode_digit c d + 2 ^ c * encval c r end.
+
+Lemma packsum_encval c : 0 <= c -> forall ds chunk, 0 <= chunk ->
+  packsum c chunk ds = 2 ^ (chunk * c) * encval c ds.
+Proof.
+  intros Hc. induction ds as [|d r IH]; intros chunk Hch; cbn [packsum encval]; [ring|].
+  rewrite IH by lia. replace ((chunk + 1) * c) with (chunk * c + c) by lia.
+  rewrite Z.pow_add_r by (try lia; apply Z.mul_nonneg_nonneg; lia). ring.
+Qed.
+
+Definition encs_ok (c : Z) (ds : list Z) : Prop := List.Forall (fun d => 0 <= encode_digit c d < 2 ^ c) ds.
+
+Lemma encval_nonneg c ds : 0 <= c -> encs_ok c ds -> 0 <= encval c ds.
+Proof.
+  intros Hc. induction 1 as [|d r Hd _ IH]; cbn [encval]; [lia|].
+  pose proof (pow2_pos' c Hc). assert (0 <= 2 ^ c * encval c r) by (apply Z.mul_nonneg_nonneg; lia). lia.
+Qed.
+
+Lemma encval_digit c : 1 <= c -> forall ds j, encs_ok c ds -> (j < length ds)%nat ->
+  (encval c ds / 2 ^ (Z.of_nat j * c)) mod 2 ^ c = encode_digit c (List.nth j ds 0).
+Proof.
+  intros Hc. pose proof (pow2_pos' c ltac:(lia)) as HB.
+  induction ds as [|d r IH]; intros j Hok Hj; [cbn in Hj; lia|].
+  pose proof (List.Forall_inv Hok) as Hd. pose proof (List.Forall_inv_tail Hok) as Hok'. cbv beta in Hd.
+  cbn [encval List.nth]. destruct j as [|j].
+  - cbn [Z.of_nat]. rewrite Z.mul_0_l, Z.pow_0_r, Z.div_1_r.
+    replace (encode_digit c d + 2 ^ c * encval c r) with (encode_digit c d + encval c r * 2 ^ c) by ring.
+    rewrite Z.mod_add by lia. apply Z.mod_small. exact Hd.
+  - rewrite Nat2Z.inj_succ. replace (Z.succ (Z.of_nat j) * c) with (c + Z.of_nat j * c) by lia.
+    rewrite Z.pow_add_r by (try lia; apply Z.mul_nonneg_nonneg; lia).
+    rewrite <- Z.div_div by (try lia; apply pow2_pos', Z.mul_nonneg_nonneg; lia).
+    replace (encode_digit c d + 2 ^ c * encval c r) with (encode_digit c d + encval c r * 2 ^ c) by ring.
+    rewrite Z.div_add by lia. rewrite (Z.div_small (encode_digit c d)) by exact Hd. rewrite Z.add_0_l.
+    apply IH; [exact Hok'|cbn in Hj; lia].
+Qed.
+
+(* every digit of the recoding of a scalar below 2^253 fits below bit 256 *)
+Lemma recode_fits c : 2 <= c <= 64 -> forall (f : nat) chunk s' carry,
+  0 <= s' -> 0 <= carry <= 1 -> 0 <= chunk -> s' * 2 ^ (chunk * c) < 2 ^ 253 ->
+  ((1 <= f)%nat -> (chunk + Z.of_nat f - 1) * c < 256) ->
+  fits256 c chunk (fst (recode f c s' carry)).
+Proof.
+  intros Hc. pose proof (pow2_pos' (c - 1) ltac:(lia)) as Hh.
+  assert (E2 : 2 ^ c = 2 * 2 ^ (c - 1)) by (replace c with (Z.succ (c - 1)) at 1 by lia; rewrite Z.pow_succ_r by lia; reflexivity).
+  induction f as [|f IH]; intros chunk s' carry Hs Hcar Hch Hb Hwin; [exact I|].
+  assert (Hstart : chunk * c < 256).
+  { specialize (Hwin ltac:(lia)). rewrite Nat2Z.inj_succ in Hwin. nia. }
+  rewrite recode_S. cbv zeta. cbn [fst fits256].
+  pose proof (pow2_pos' (chunk * c) ltac:(apply Z.mul_nonneg_nonneg; lia)) as HP.
+  assert (Hw : 0 <= s' mod 2 ^ c < 2 ^ c) by (apply Z.mod_pos_bound; lia).
+  set (w := carry + s' mod 2 ^ c) in *. set (over := 2 ^ (c - 1) <=? w) in *.
+  set (d := if over then w - 2 ^ c else w) in *.
+  assert (Hd : - 2 ^ (c - 1) <= d <= 2 ^ (c - 1) - 1).
+  { unfold d, over. destruct (Z.leb_spec (2 ^ (c - 1)) w); unfold w in *; lia. }
+  destruct (signed_digit_roundtrip c d ltac:(lia) Hd) as [_ Henc].
+  split.
+  - destruct (Z.le_gt_cases ((chunk + 1) * c) 256) as [Hin|Hout].
+    + (* the whole window lies below bit 256 *)
+      assert (2 ^ (chunk * c) * 2 ^ c <= 2 ^ 256).
+      { rewrite <- Z.pow_add_r by (try lia; apply Z.mul_nonneg_nonneg; lia). apply Z.pow_le_mono_r; lia. }
+      assert (encode_digit c d * 2 ^ (chunk * c) <= (2 ^ c - 1) * 2 ^ (chunk * c)) by (apply Z.mul_le_mono_nonneg_r; lia).
+      assert ((2 ^ c - 1) * 2 ^ (chunk * c) = 2 ^ (chunk * c) * 2 ^ c - 2 ^ (chunk * c)) by ring. lia.
+    + (* top, partial window: the digit is small and non-negative *)
+      assert (Hc3 : 3 <= c) by (destruct (Z.eq_dec c 2) as [->|]; lia).
+      assert (Hs253 : s' < 2 ^ (c - 3)).
+      { assert (2 ^ 253 <= 2 ^ (chunk * c) * 2 ^ (c - 3)).
+        { rewrite <- Z.pow_add_r by (try lia; apply Z.mul_nonneg_nonneg; lia). apply Z.pow_le_mono_r; lia. }
+        assert (s' * 2 ^ (chunk * c) < 2 ^ (chunk * c) * 2 ^ (c - 3)) by lia.
+        rewrite (Z.mul_comm s') in H0. apply Z.mul_lt_mono_pos_l in H0; lia. }
+      assert (E3 : 2 ^ c = 8 * 2 ^ (c - 3)).
+      { replace c with ((c - 3) + 3) at 1 by lia. rewrite Z.pow_add_r by lia. change (2 ^ 3) with 8. ring. }
+      assert (E4 : 2 ^ (c - 1) = 4 * 2 ^ (c - 3)).
+      { replace (c - 1) with ((c - 3) + 2) by lia. rewrite Z.pow_add_r by lia. change (2 ^ 2) with 4. ring. }
+      pose proof (pow2_pos' (c - 3) ltac:(lia)) as H3.
+      assert (Hsm : s' mod 2 ^ c = s') by (apply Z.mod_small; lia).
+      assert (Hov : over = false) by (unfold over, w; rewrite Hsm; apply Z.leb_gt; lia).
+      assert (Hdw : d = w) by (unfold d; rewrite Hov; reflexivity).
+      assert (Hee : encode_digit c d <= d).
+      { unfold encode_digit. destruct (Z.eqb_spec d 0); [lia|]. destruct (Z.leb_spec 0 d); [lia|]. unfold w in *. lia. }
+      assert (encode_digit c d * 2 ^ (chunk * c) <= (s' + 1) * 2 ^ (chunk * c)).
+      { apply Z.mul_le_mono_nonneg_r; [lia|]. unfold w in *. lia. }
+      assert ((s' + 1) * 2 ^ (chunk * c) = s' * 2 ^ (chunk * c) + 2 ^ (chunk * c)) by ring.
+      assert (2 ^ (chunk * c) < 2 ^ 256) by (apply Z.pow_lt_mono_r; lia).
+      assert (2 ^ 253 + 2 ^ 256 < 2 * 2 ^ 256) by reflexivity.
+      (* s' 2^(chunk c) < 2^253 and 2^(chunk c) <= 2^255 *)
+      assert (2 ^ (chunk * c) <= 2 ^ 255) by (apply Z.pow_le_mono_r; lia).
+      assert (2 ^ 253 + 2 ^ 255 < 2 ^ 256) by reflexivity. lia.
+  - apply IH.
+    + apply Z.div_pos; lia.
+    + unfold over. destruct (2 ^ (c - 1) <=? w); lia.
+    + lia.
+    + (* (s'/2^c) 2^((chunk+1)c) <= s' 2^(chunk c) *)
+      replace ((chunk + 1) * c) with (chunk * c + c) by lia.
+      rewrite Z.pow_add_r by (try lia; apply Z.mul_nonneg_nonneg; lia).
+      pose proof (Z.mul_div_le s' (2 ^ c) ltac:(lia)).
+      assert (s' / 2 ^ c * (2 ^ (chunk * c) * 2 ^ c) = (2 ^ c * (s' / 2 ^ c)) * 2 ^ (chunk * c)) by ring.
+      assert ((2 ^ c * (s' / 2 ^ c)) * 2 ^ (chunk * c) <= s' * 2 ^ (chunk * c)) by (apply Z.mul_le_mono_nonneg_r; lia).
+      lia.
+    + intros Hf. specialize (Hwin ltac:(lia)). rewrite Nat2Z.inj_succ in Hwin.
+      replace (chunk + 1 + Z.of_nat f - 1) with (chunk + Z.succ (Z.of_nat f) - 1) by lia. exact Hwin.
+Qed.
+
+(* the packed value stays below 2^256 *)
+Lemma encval_lt_pow c : 1 <= c -> forall ds, encs_ok c ds -> encval c ds < 2 ^ (Z.of_nat (length ds) * c).
+Proof.
+  intros Hc. pose proof (pow2_pos' c ltac:(lia)) as HB.
+  induction 1 as [|d r Hd _ IH]; cbn [encval length]; [cbn; lia|].
+  rewrite Nat2Z.inj_succ. replace (Z.succ (Z.of_nat (length r)) * c) with (c + Z.of_nat (length r) * c) by lia.
+  rewrite Z.pow_add_r by (try lia; apply Z.mul_nonneg_nonneg; lia).
+  set (M := 2 ^ (Z.of_nat (length r) * c)) in *.
+  assert (2 ^ c * encval c r <= 2 ^ c * (M - 1)) by (apply Z.mul_le_mono_nonneg_l; lia).
+  assert (2 ^ c * (M - 1) = 2 ^ c * M - 2 ^ c) by ring. lia.
+Qed.
+
+Lemma fits_last c ds : forall chunk, 0 <= chunk -> 1 <= c -> ds <> nil -> fits256 c chunk ds ->
+  encode_digit c (List.last ds 0) * 2 ^ ((chunk + Z.of_nat (length ds) - 1) * c) < 2 ^ 256.
+Proof.
+  induction ds as [|d r IH]; intros chunk Hch Hc Hne Hf; [congruence|].
+  destruct r as [|d' r'].
+  - cbn [List.last length fits256] in *. replace (chunk + Z.of_nat 1 - 1) with chunk by lia. tauto.
+  - cbn [fits256] in Hf. destruct Hf as [_ Hf]. specialize (IH (chunk + 1) ltac:(lia) Hc ltac:(discriminate) Hf).
+    change (List.last (d :: d' :: r') 0) with (List.last (d' :: r') 0).
+    replace (chunk + Z.of_nat (length (d :: d' :: r')) - 1) with (chunk + 1 + Z.of_nat (length (d' :: r')) - 1)
+      by (cbn [length]; lia). exact IH.
+Qed.
+
+Lemma encval_split_last c : 1 <= c -> forall ds, encs_ok c ds -> ds <> nil ->
+  encval c ds < (encode_digit c (List.last ds 0) + 1) * 2 ^ ((Z.of_nat (length ds) - 1) * c).
+Proof.
+  intros Hc. pose proof (pow2_pos' c ltac:(lia)) as HB.
+  induction ds as [|d r IH]; intros Hok Hne; [congruence|].
+  pose proof (List.Forall_inv Hok) as Hd. pose proof (List.Forall_inv_tail Hok) as Hok'. cbv beta in Hd.
+  destruct r as [|d' r'].
+  - cbn [encval List.last length]. replace ((Z.of_nat 1 - 1) * c) with 0 by lia. rewrite Z.pow_0_r. lia.
+  - specialize (IH Hok' ltac:(discriminate)).
+    change (List.last (d :: d' :: r') 0) with (List.last (d' :: r') 0).
+    change (encval c (d :: d' :: r')) with (encode_digit c d + 2 ^ c * encval c (d' :: r')).
+    replace ((Z.of_nat (length (d :: d' :: r')) - 1) * c) with (c + (Z.of_nat (length (d' :: r')) - 1) * c)
+      by (cbn [length]; lia).
+    rewrite Z.pow_add_r by (try lia; apply Z.mul_nonneg_nonneg; cbn [length]; lia).
+    set (E := encode_digit c (List.last (d' :: r') 0)) in *.
+    set (M := 2 ^ ((Z.of_nat (length (d' :: r')) - 1) * c)) in *.
+    set (V := encval c (d' :: r')) in *.
+    assert (2 ^ c * V <= 2 ^ c * ((E + 1) * M - 1)) by (apply Z.mul_le_mono_nonneg_l; lia).
+    assert (2 ^ c * ((E + 1) * M - 1) = (E + 1) * (2 ^ c * M) - 2 ^ c) by ring. lia.
+Qed.
+
+Lemma packed_lt_256 c ds : 1 <= c -> encs_ok c ds -> fits256 c 0 ds ->
+  (Z.of_nat (length ds) - 1) * c < 256 -> encval c ds < 2 ^ 256.
+Proof.
+  intros Hc Hok Hf HK. destruct ds as [|d r]; [cbn; reflexivity|].
+  pose proof (encval_split_last c Hc (d :: r) Hok ltac:(discriminate)) as Hlt.
+  pose proof (fits_last c (d :: r) 0 ltac:(lia) Hc ltac:(discriminate) Hf) as Hl.
+  replace (0 + Z.of_nat (length (d :: r)) - 1) with (Z.of_nat (length (d :: r)) - 1) in Hl by lia.
+  set (K := (Z.of_nat (length (d :: r)) - 1) * c) in *. set (E := encode_digit c (List.last (d :: r) 0)) in *.
+  assert (HK0 : 0 <= K) by (unfold K; apply Z.mul_nonneg_nonneg; cbn [length]; lia).
+  pose proof (pow2_pos' K HK0) as HP.
+  assert (E256 : 2 ^ 256 = 2 ^ K * 2 ^ (256 - K)) by (rewrite <- Z.pow_add_r by lia; f_equal; lia).
+  (* E 2^K < 2^K 2^(256-K)  ->  E + 1 <= 2^(256-K) *)
+  assert (HE : E < 2 ^ (256 - K)).
+  { rewrite E256, (Z.mul_comm E) in Hl. apply Z.mul_lt_mono_pos_l in Hl; lia. }
+  assert ((E + 1) * 2 ^ K <= 2 ^ (256 - K) * 2 ^ K) by (apply Z.mul_le_mono_nonneg_r; lia).
+  rewrite E256. lia.
+Qed.
+
+Lemma nb_chunks_windows c : 1 <= c <= 256 -> (nb_chunks c - 1) * c < 256.
+Proof.
+  intros Hc. unfold nb_chunks. pose proof (Z.div_mod 256 c ltac:(lia)) as Hdm.
+  pose proof (Z.mod_pos_bound 256 c ltac:(lia)) as Hm.
+  destruct (Z.eqb_spec (256 mod c) 0) as [E|E]; nia.
+Qed.
+
+(* MAIN (limb level): for every window width 2 <= c <= 64 and every canonical scalar, the
+   packed limbs written by partitionScalars, read back chunk by chunk the way the chunk
+   processor reads them, are exactly the signed digits of the arithmetic recoding; no carry
+   is left *)
+Theorem partition_scalar_digits c s :
+  2 <= c <= 64 -> 0 <= s < 2 ^ 253 ->
+  let nb := Z.to_nat (nb_chunks c) in
+  let packed := fst (part_loop nb c s 0 0 0) in
+  snd (part_loop nb c s 0 0 0) = 0
+  /\ 0 <= packed < 2 ^ 256
+  /\ forall j, (j < nb)%nat ->
+       signed_of_bits c (chunk_bits c packed (Z.of_nat j)) = List.nth j (fst (recode nb c s 0)) 0.
+Proof.
+  intros Hc Hs nb packed.
+  pose proof (nb_chunks_pos c ltac:(lia)) as Hnb1.
+  pose proof (nb_chunks_windows c ltac:(lia)) as Hwin.
+  assert (Hnbz : Z.of_nat nb = nb_chunks c) by (unfold nb; rewrite Z2Nat.id; lia).
+  destruct (recode_real_value c s ltac:(lia) Hs) as (Hval & Hrange & Hlen). fold nb in Hval, Hrange, Hlen.
+  pose proof (recode_real_no_carry c s ltac:(lia) Hs) as Hcf. fold nb in Hcf.
+  set (ds := fst (recode nb c s 0)) in *.
+  assert (Hs256 : s < 2 ^ 256) by (assert (2 ^ 253 < 2 ^ 256) by reflexivity; lia).
+  assert (Hfit : fits256 c 0 ds).
+  { unfold ds. apply recode_fits; try lia; try (rewrite Z.mul_0_l, Z.pow_0_r; lia);
+      try (intros _; rewrite Hnbz; replace (0 + nb_chunks c - 1) with (nb_chunks c - 1) by lia; exact Hwin). }
+  assert (Hok : encs_ok c ds).
+  { unfold encs_ok. eapply List.Forall_impl; [|exact Hrange]. intros d Hd. apply (signed_digit_roundtrip c d ltac:(lia) Hd). }
+  pose proof (part_loop_spec nb c s 0 0 0 Hc ltac:(lia) ltac:(lia) ltac:(lia)) as Hspec.
+  rewrite Z.mul_0_r, Z.pow_0_r, Z.div_1_r in Hspec. fold ds in Hspec.
+  specialize (Hspec ltac:(intros _; rewrite Hnbz; replace (0 + nb_chunks c - 1) with (nb_chunks c - 1) by lia; exact Hwin)
+                    ltac:(first [lia | split; [lia|apply pow2_pos'; lia]]) Hfit).
+  assert (Epk : packed = encval c ds).
+  { unfold packed. rewrite Hspec. cbn [fst]. rewrite (packsum_encval c ltac:(lia) ds 0 ltac:(lia)).
+    rewrite Z.mul_0_l, Z.pow_0_r. ring. }
+  split; [rewrite Hspec; cbn [snd]; exact Hcf|].
+  assert (Hpk : 0 <= packed < 2 ^ 256).
+  { rewrite Epk. split; [apply encval_nonneg; [lia|exact Hok]|].
+    apply packed_lt_256; try assumption; try lia; try (rewrite Hlen, Hnbz; exact Hwin). }
+  split; [exact Hpk|]. intros j Hj.
+  unfold chunk_bits. rewrite (window_extraction c (Z.of_nat j) packed) by (try lia; nia).
+  rewrite Epk. rewrite (encval_digit c ltac:(lia) ds j Hok) by lia.
+  apply signed_digit_roundtrip; [lia|].
+  exact (proj1 (List.Forall_forall _ _) Hrange _ (@List.nth_In Z j ds 0 ltac:(lia))).
 Qed.
